@@ -489,6 +489,12 @@ func (vc *FuncVC) havocLocation(st *State, sc *Scope, e Expr, site string) {
 		}
 		specFail("assigns %s: no such field", e)
 	case ECall:
+		if x.Fn == "pointee" && len(x.Args) == 1 {
+			b := sc.eval(x.Args[0])
+			p := st.heapGet("Pointee", arraySort(SInt, SIface))
+			st.heapSet("Pointee", arraySort(SInt, SIface), sto(p, app("uInt", app("pay", b.T)), st.fresh("hv", SIface)))
+			return
+		}
 		if x.Fn == "contents" && len(x.Args) == 1 {
 			b := sc.eval(x.Args[0])
 			switch u := b.GT.Underlying().(type) {
@@ -528,6 +534,11 @@ func (vc *FuncVC) invokeMethod(st *State, fr *Frame, instr ssa.Instruction, cc *
 	// context.Context
 	if nt, ok := it.(*types.Named); ok && nt.Obj().Pkg() != nil && nt.Obj().Pkg().Path() == "context" {
 		return vc.ctxMethod(st, recv, m, site)
+	}
+	if nt, ok := it.(*types.Named); ok && nt.Obj().Pkg() != nil && nt.Obj().Pkg().Path() == "reflect" && nt.Obj().Name() == "Type" {
+		if res, ok := vc.reflectTypeMethod(st, instr, recv, m); ok {
+			return res
+		}
 	}
 	// abstract contract: exact interface name, or any interface of the package declaring the method
 	var ct *Contract
